@@ -220,7 +220,7 @@ Definition inv_emutex (g : globals) (t : tid) (th : thread) : Prop :=
 Lemma init_thread_nth : forall progs t th,
   nth_error (map (fun bp : bool * list op => init_thread (fst bp) (snd bp)) progs) t = Some th ->
   th_pc th = PIdle /\ th_cur th = None /\ th_pub = th_pub /\ th_read th = None /\ th_pub th = None /\
-  th_cancelled th = false /\ th_results th = [] /\ th_streams th = 0.
+  th_cancelled th = false /\ th_results th = [] /\ th_streams th = 0 /\ th_inv th = 0.
 Proof.
   intros. rewrite nth_error_map in H. destruct (nth_error progs t); simpl in H; inversion H; subst.
   simpl. repeat split; auto.
@@ -625,3 +625,81 @@ Proof. intros c s x R. destruct (base_invariant _ _ R) as [[E1 _] _]. auto. Qed.
 
 Theorem log_serial : forall c s, reachable c s -> log_ok (log (st_g s)) (catalog (st_g s)) (version (st_g s)).
 Proof. intros c s R. destruct (base_invariant _ _ R) as [[_ L] _]. auto. Qed.
+
+(* consequences of log_ok in the form of the property statement *)
+Definition result_of (l : list commit) : list wop :=
+  match l with [] => [] | e :: _ => c_result e end.
+
+Lemma log_ok_head : forall l cat ver, log_ok l cat ver -> cat = result_of l /\ ver = List.length l.
+Proof.
+  induction l; simpl; intros cat ver H.
+  - destruct H; subst; auto.
+  - destruct H as (A & B & prev & C & D). destruct (IHl _ _ D) as [_ L]. split; [congruence|lia].
+Qed.
+
+Lemma log_ok_split : forall l cat ver l1 e l2,
+  log_ok l cat ver -> l = l1 ++ e :: l2 ->
+  c_base e = List.length l2 /\ c_result e = result_of l2 ++ c_ops e.
+Proof.
+  induction l; intros cat ver l1 e l2 H EQ.
+  - destruct l1; discriminate.
+  - simpl in H. destruct H as (A & B & prev & C & D). destruct l1; simpl in EQ; inversion EQ; subst.
+    + destruct (log_ok_head _ _ _ D) as [P L]. split; congruence.
+    + eapply IHl; eauto.
+Qed.
+
+Lemma log_ok_flat : forall l cat ver, log_ok l cat ver -> cat = flat_map c_ops (rev l).
+Proof.
+  induction l; simpl; intros cat ver H.
+  - destruct H; auto.
+  - destruct H as (A & B & prev & C & D). rewrite flat_map_app. simpl. rewrite app_nil_r.
+    rewrite <- (IHl _ _ D). congruence.
+Qed.
+
+Lemma log_ok_base_lt : forall l cat ver e, log_ok l cat ver -> In e l -> c_base e < ver.
+Proof.
+  induction l; simpl; intros cat ver e H I; [contradiction|].
+  destruct H as (A & B & prev & C & D). destruct I as [->|I]; [lia|].
+  specialize (IHl _ _ _ D I). lia.
+Qed.
+
+(* ------------------------------------------------------------------ *)
+(* G/H/R. Time stamps: commit points lie inside their calls, snapshots
+   are commit prefixes that were current when they were taken.          *)
+
+Fixpoint times_ok (l : list commit) (bound : nat) : Prop :=
+  match l with
+  | [] => True
+  | e :: l' => c_time e < bound /\ times_ok l' (c_time e)
+  end.
+
+(* the catalog after the first v commits *)
+Fixpoint cat_at (l : list commit) (v : nat) : list wop :=
+  match l with
+  | [] => []
+  | e :: l' => if Nat.eqb (S (c_base e)) v then c_result e else cat_at l' v
+  end.
+
+Definition read_ok (g : globals) (lo : nat) (hi : nat) (r : option (nat * nat)) : Prop :=
+  forall v tm, r = Some (v, tm) ->
+    lo <= tm /\ tm < hi /\ v <= version g /\
+    forall e, In e (log g) -> (c_base e < v <-> c_time e < tm).
+
+Definition pub_ok (g : globals) (lo : nat) (hi : nat) (p : option txid) : Prop :=
+  forall x, p = Some x -> exists e, In e (log g) /\ c_txn e = x /\ lo <= c_time e /\ c_time e < hi.
+
+Definition call_ok (g : globals) (k : call) : Prop :=
+  k_inv k <= k_ret k /\ k_ret k < now g /\
+  pub_ok g (k_inv k) (k_ret k) (k_pub k) /\ read_ok g (k_inv k) (k_ret k) (k_read k).
+
+Definition inv_time_g (g : globals) : Prop :=
+  times_ok (log g) (now g) /\
+  (forall k, In k (calls g) -> call_ok g k) /\
+  (forall x tx, nth_error (txns g) x = Some tx ->
+     t_base_ver tx <= version g /\ cat_at (log g) (t_base_ver tx) = t_base_cat tx).
+
+Definition inv_time (g : globals) (t : tid) (th : thread) : Prop :=
+  th_inv th <= now g /\
+  pub_ok g (th_inv th) (now g) (th_pub th) /\ read_ok g (th_inv th) (now g) (th_read th) /\
+  (th_pc th = PIdle -> th_pub th = None /\ th_read th = None).
+
